@@ -683,6 +683,7 @@ typeinv d *DictData : d.Dict != nil
 typeinv f *NativeFunctionData : f.NativeFunc != nil
 typeinv c *customDiceCompiled : c.item != nil
 typeinv it *customDiceItem : it.fn != nil
+typeinv m *customDiceMatch : m.item != nil
 
 nonnil-elems *VMValue
 
@@ -819,7 +820,7 @@ func (*VMDictValue).V
 
 
 func (*Context).evaluate
-  props C01 C04 C07 C13 C17 C18
+  props C01 C04 C07 C13 C14 C17 C18
   requires ctx != nil
   requires 0 <= ctx.codeIndex && ctx.codeIndex <= len(ctx.code)
   requires forall k in [0, ctx.codeIndex): wfInstr(&ctx.code[k], k, ctx.codeIndex)
@@ -874,6 +875,19 @@ func (*Context).evaluate
   ghost var cdCalls int = 0
   ghost at loop 3 begin: gtop = e.top; stCalls = 0; cdCalls = 0; gcb = e.Config.CallbackSt != nil
   ghost var gopc IntType = 0
+  ghost var gres *VMValue = nil
+  ghost at loop 3 begin: gres = nil
+  ghost at call 1 fn: gres = ret0
+  ghost at loop 3 end: if code.T == typeCustomDice && ctx.Error == nil { ghostAssert(gres != nil && stack[e.top-1].TypeId == gres.TypeId && stack[e.top-1].Value == gres.Value); ghostAssert(len(details) > 0 ==> details[len(details)-1].Ret != gres && isFresh(details[len(details)-1].Ret)) }
+  ghost var gdtext string = ""
+  ghost var gdnum IntType = 0
+  ghost at loop 3 begin: gdtext = ""; gdnum = 0
+  ghost at call 1 RollCommon: gdnum = ret0; gdtext = ret1
+  ghost at call 1 RollFate: gdnum = ret0; gdtext = ret1
+  ghost at call 1 RollCoC: gdnum = ret0; gdtext = ret1
+  ghost at call 1 RollWoD: gdnum = ret0; gdtext = ret3
+  ghost at call 1 RollDoubleCross: gdnum = ret0; gdtext = ret3
+  ghost at loop 3 end: if (code.T == typeDice || code.T == typeDiceFate || code.T == typeDiceCocBonus || code.T == typeDiceCocPenalty || code.T == typeDiceWod || code.T == typeDiceDC) && ctx.Error == nil { ghostAssert(stack[e.top-1].TypeId == VMTypeInt && stack[e.top-1].Value.(IntType) == gdnum); ghostAssert(details[len(details)-1].Ret != nil && details[len(details)-1].Ret.TypeId == VMTypeInt && details[len(details)-1].Ret.Value.(IntType) == gdnum); ghostAssert(details[len(details)-1].Text == gdtext) }
   ghost at loop 3 begin: gopc = e.NumOpCount
   ghost at precall 1 RollCommon: ghostAssert(e.NumOpCount == math.MaxInt64 || e.NumOpCount >= gopc + arg1)
   ghost at precall 1 RollCoC: ghostAssert(e.NumOpCount == math.MaxInt64 || e.NumOpCount >= gopc + arg2)
@@ -1174,6 +1188,47 @@ func NewDictValWithArray
   loop 1
     invariant 0 <= i && i % 2 == 0 && i <= len(arr) && data != nil
   ensures result1 == nil ==> result0 != nil
+
+// ---- extension points (C17) ----
+
+// StoreName: a store hook that passes the value through (returns nil, false) changes nothing: the value handed to the
+// store is the caller's value; a hook that claims the store (solved) suppresses it; an overwrite replaces the value.
+func (*Context).StoreName
+  props C17 C01
+  requires ctx.globalNames != nil
+  ghost var stores int = 0
+  ghost var hookOverwrite *VMValue = nil
+  ghost var hookSolved bool = false
+  ghost var hookCalls int = 0
+  ghost at call 1 HookValueStore: hookCalls = hookCalls + 1; hookOverwrite = ret0; hookSolved = ret1; ghostAssume(ctx.globalNames != nil, "a host store hook does not clear the context's global-name table")
+  ghost at precall 1 ctx.StoreNameGlobal: stores = stores + 1; ghostAssert(arg0 == old(name)); ghostAssert(hookOverwrite == nil ==> arg1 == old(v)); ghostAssert(hookOverwrite != nil ==> arg1 == hookOverwrite)
+  ghost at precall 1 ctx.StoreNameLocal: stores = stores + 1; ghostAssert(arg0 == old(name)); ghostAssert(hookOverwrite == nil ==> arg1 == old(v)); ghostAssert(hookOverwrite != nil ==> arg1 == hookOverwrite)
+  ensures [C17] hookSolved ==> stores == 0
+  ensures [C17] !hookSolved ==> stores == 1
+  ensures [C17] !useHook ==> hookCalls == 0
+  ensures [C17] hookCalls <= 1
+
+func (*ParserCustomData).PrepareCustomDice
+  props C17 C01
+  nilrecv
+  requires d != nil && p != nil
+  ensures [C17] !result ==> d.pendingCustomDice == nil
+  ensures [C17] result ==> d.pendingCustomDice != nil
+
+func (*ParserCustomData).tryMatchCustomDice
+  props C17 C01
+  nilrecv
+  requires p != nil
+  ensures [C17] result1 ==> result0 != nil
+  ensures [C17] !result1 ==> result0 == nil
+  loop 2
+    invariant 0 <= i && i <= groupCount && len(groups) == groupCount && 2*groupCount <= len(loc) && groupCount >= 1 && isFresh(groups) && groups != nil
+    decreases groupCount - i
+
+func (*ParserCustomData).CommitCustomDice
+  props C17 C01
+  requires d != nil && 0 <= d.codeIndex && d.codeIndex <= len(d.code) && len(d.code) >= 1
+  ensures [C17] d.pendingCustomDice == nil
 
 func (*VMValue).GetSliceEx
   props C01
